@@ -380,7 +380,7 @@ def run(ctx):
         add('(' + pre + ' ' + ' && '.join(f'({p})' for _, p in ps) + ')', 'tree', kind, what)
         parts.append([(lab, '(' + pre + ' ' + p + ')') for lab, p in ps])
 
-    n_trees = 450 if ctx.quick else 6000
+    n_trees = 450 if ctx.quick else 4500
     for i in range(n_trees):
         kind = ('licensed', 'random', 'exotic')[i % 3]
         one_tree(make_tree(kind), kind)
@@ -411,7 +411,7 @@ def run(ctx):
             add(f'ChkFile [] {glist(lines, lit)} None', 'file', kind, content, res)
 
     short = [l for l in printed if len(l) <= 420] or printed
-    n_mal = 500 if ctx.quick else 8000
+    n_mal = 500 if ctx.quick else 5000
     for i in range(n_mal):
         line = rng.choice(short)
         for _ in range(rng.choice([1, 1, 1, 2, 3])):
@@ -420,7 +420,7 @@ def run(ctx):
             continue
         malformed(['ID=1\n', line + '\n'], 'garbled')
     ws = [' ', '\t', ' ', '　', '\x0b', '\x1c', ' ', '\x85']
-    for i in range(100 if ctx.quick else 1500):
+    for i in range(100 if ctx.quick else 1000):
         k = rng.randrange(8)
         l1, l2 = rng.choice(short), rng.choice(short)
         pad = lambda s: ''.join(rng.choice(ws) for _ in range(rng.randint(0, 2))) + s + ''.join(rng.choice(ws) for _ in range(rng.randint(0, 2)))
@@ -485,3 +485,31 @@ def run(ctx):
                      'outside the model)',
                      'conll fragments are stated for trees whose tokens all carry pos (auto_of defaults to POS, conll_of to _)',
                      'reader results containing an ill-typed category object (e.g. Category.parse("/") returns a str) count as errors'])
+
+
+def replay(data):
+    """re-execute the failing inputs of a replay file against the implementation: read the recorded AUTO line, print it again"""
+    import tempfile
+    set_global_language_to('en')
+    rc = 0
+    for f in data.get('failures', []):
+        d = f.get('data') or {}
+        line = d.get('auto')
+        print(f"[{f.get('kind')}] {f.get('desc', '')[:300]}")
+        if line is None:
+            continue
+        with tempfile.TemporaryDirectory() as td:
+            out, res = run_reader(os.path.join(td, 'replay.auto'), 'ID=1\n' + line + '\n')
+        if out != 'ok' or len(res) != 1:
+            print(f'   read_auto on the line: {out} {res if out != "ok" else len(res)}')
+            rc = 1
+            continue
+        again = auto_of(res[0].tree)
+        print(f'   read_auto ok; auto_of(read) == line: {again == line}; label complaint: {label_complaint(res[0].tree)}')
+        print(f'   tokens read: {[dict(t) for t in res[0].tokens]}')
+        if 'fragments' in d:
+            print(f"   ' '.join(fragments) == line: {' '.join(d['fragments']) == line}")
+        rc = 1
+    for b in data.get('broken_obligations', []):
+        print('broken obligation:', (b.get('name') if isinstance(b, dict) else b[0]))
+    return rc
